@@ -186,6 +186,65 @@ fn run_case_budget(prior: PortSettings, entry: Entry, fault: Fault, fk: usize, b
     }
 }
 
+/// A setup that failed, then the same port set up again (by `configure_port`, or handed to a constructor) once the cause is
+/// gone — and a setup on ANOTHER port right after a failed one on this thread: the second attempt is judged like a first.
+fn second_attempts(prior: PortSettings, fk: usize, rep: &mut Report) {
+    for fault in [Fault::ReadSettings, Fault::Baud, Fault::WriteSettings, Fault::SetTimeout] {
+        for second in 0..4usize {
+            let sig = format!("second-attempt|{:?}|{:?}|{}|{}", prior, fault, fk, second);
+            rep.case(Some(fnv(sig.as_bytes())));
+            let st = doubles::shared(prior);
+            {
+                let mut s = st.borrow_mut();
+                s.fault_budget = usize::MAX;
+                match fault {
+                    Fault::None => {}
+                    Fault::ReadSettings => s.fail_read_settings = Some(FAULT_KINDS[fk]),
+                    Fault::Baud => s.fail_baud = Some(FAULT_KINDS[fk]),
+                    Fault::WriteSettings => s.fail_write_settings = Some(FAULT_KINDS[fk]),
+                    Fault::SetTimeout => s.fail_set_timeout = Some(FAULT_KINDS[fk]),
+                }
+            }
+            let mut port = InstrPort::scripted(st.clone(), FragReader::plain(vec![]), FragWriter::new(vec![], WriteAct::Accept(usize::MAX)));
+            let first = catch(|| flipdot_serial::configure_port(&mut port, Duration::from_millis(40)).is_err());
+            // the cause goes away
+            {
+                let mut s = st.borrow_mut();
+                s.fail_read_settings = None;
+                s.fail_baud = None;
+                s.fail_write_settings = None;
+                s.fail_set_timeout = None;
+                s.log.clear();
+            }
+            // the second attempt: on the same port (three ways), or on a fresh port with the same prior settings
+            let st2 = if second == 3 { doubles::shared(prior) } else { st.clone() };
+            let r = catch(|| -> Result<(), String> {
+                match second {
+                    0 => flipdot_serial::configure_port(&mut port, Duration::from_millis(41)).map_err(|e| e.to_string()),
+                    1 => SerialSignBus::try_new(port).map(|_| ()).map_err(|e| e.to_string()),
+                    2 => Odk::try_new(port, VirtualSignBus::new(vec![])).map(|_| ()).map_err(|e| e.to_string()),
+                    _ => {
+                        let mut p2 = InstrPort::scripted(st2.clone(), FragReader::plain(vec![]), FragWriter::new(vec![], WriteAct::Accept(usize::MAX)));
+                        flipdot_serial::configure_port(&mut p2, Duration::from_millis(42)).map_err(|e| e.to_string())
+                    }
+                }
+            });
+            let s = st2.borrow();
+            let what = match (&first, &r) {
+                (Ok(true), Ok(Ok(()))) if s.settings == TARGET && s.timeout.is_some() && (second != 0 || s.timeout == Some(Duration::from_millis(41))) => None,
+                (Ok(true), Ok(Ok(()))) => Some(format!("the second attempt returned Ok but the port is at {:?}, timeout {:?}", s.settings, s.timeout)),
+                (Ok(true), Ok(Err(e))) => Some(format!("the second attempt failed ({}) although the port no longer refuses anything", e)),
+                (Ok(false), _) => Some("the first attempt returned Ok although the port refused".to_string()),
+                (Err(p), _) | (_, Err(p)) => Some(format!("panic {} at {}", p.msg, short_loc(&p.loc))),
+            };
+            match what {
+                None => rep.count("second_attempts_ok"),
+                Some(w) => rep.violation(MON, "second_attempt_after_a_failed_setup", &sig, format!("setup of a port at {:?} failed at {:?} ({:?}); then {}: {}", prior, fault, FAULT_KINDS[fk].0, ["configure_port on the same port", "SerialSignBus::try_new on the same port", "Odk::try_new on the same port", "configure_port on another port"][second], w), J::obj(vec![("workload", J::s("second attempt")), ("prior", J::s(format!("{:?}", prior))), ("fault", J::s(format!("{:?}", fault))), ("second", J::us(second)), ("observed", J::s(w.clone()))])),
+            }
+        }
+    }
+}
+
 /// Several ports brought up AT THE SAME TIME, each on a thread of its own (a controller's bus and a bridge started
 /// together; one process serving several lines), some of them slow to apply settings: each constructor that returns Ok
 /// must leave ITS port at 19200 8N1 without flow control with a timeout applied, whatever the others are doing.
@@ -358,6 +417,9 @@ pub fn run(ctx: &Ctx) -> Outcome {
                 rep.count("repeated_setups_of_one_port");
             }
         }
+        if i % 8 == 3 || !ctx.quick() {
+            second_attempts(prior, i % FAULT_KINDS.len(), rep);
+        }
         if i == 1 {
             concurrent_setups(if ctx.quick() { 45 } else { 600 }, rep);
         }
@@ -369,6 +431,7 @@ pub fn run(ctx: &Ctx) -> Outcome {
         floor("sub-millisecond, fractional and very long caller timeouts", report.get("unusual_timeouts_applied") == 135 * 10, report.get("unusual_timeouts_applied")),
         floor("ports that already carry a read timeout (equal to / different from the one asked for), every error kind at every fault point", report.get("cases_on_a_port_with_a_timeout_already_set") == (270 * 4 * 4 * FAULT_KINDS.len() * 4) as u64, report.get("cases_on_a_port_with_a_timeout_already_set")),
         floor("one port object configured 70 000 times", report.get("repeated_setups_of_one_port") == 70_000, report.get("repeated_setups_of_one_port")),
+        floor("a failed setup followed by a second attempt (same port three ways, another port) once the cause is gone", report.get("second_attempts_ok") >= 135 * 16, report.get("second_attempts_ok")),
         floor("two to four ports set up at the same time on threads of their own, one of them slow to apply settings", report.get("concurrent_setups_ok") >= 100, report.get("concurrent_setups_ok")),
         floor("every error kind (7, incl. Interrupted) at every fault point (4)", report.set_len("fault_kind_x_point") == 28, report.set_len("fault_kind_x_point")),
     ];
